@@ -16,6 +16,9 @@ CHECKS = {
     "C01": ("exploration", "Seeded search over generated driver definitions (inheritance depth <= 3, all five vector kinds, three switch rules, printf and sexagesimal formats, enabled flags on groups/vectors/elements, 1-3 devices) x operation histories (driver-side assign/set_value/bool_value/state/enabled/selected_value, client-side handshake and assign+submit, late client start, in-process snooping) x network schedules (8 fragmentation modes, 6 latency profiles incl. per-connection skew, 4 high-water marks, timer tie shuffling) on the real full stack; at every settle point every client's mirror and a reference mirror fed with the same messages are compared with the driver's state read through its public attributes.",
             "Fault-free network; serialised messages stay below the 2048-character control threshold; number texts are compared with the library's own rendering; two known findings (K01, K02: state of BLOB vectors across the two connections) are suppressed by narrow signatures.",
             "deterministic simulation of the full client/server stack with seeded network schedules; truth-vs-mirror comparison at quiescence"),
+    "C06": ("exploration", "Seeded search over multi-device deployments x write episodes (settle, snapshot of every element of every device, one client assigns a non-empty element subset of one writable property through the client API and submits, settle, snapshot) x values of each element's domain (text over XML-representable characters, both switch states, byte strings incl. empty, plain and sexagesimal numbers incl. negative) x 7 fragmentation modes x 5 latency profiles; unaddressed elements must be unchanged except rule-forced switch flips predicted by an independent rule model, addressed ones must hold the submitted value (numbers within half the format's resolution under INDI conventions), and the client's own view must show the driver's values afterwards.",
+            "Only rw/wo properties, numbers in the format's own shape, BLOB payloads small enough for the server-side 2048-character threshold (big uploads are C08).",
+            "deterministic simulation of isolated write episodes through the real client API, wire, framing, router and driver with before/after truth snapshots"),
     "C02": ("exploration", "Seeded search over (message sequence, spelling, receive world, threshold, stream partition), including exhaustive 1-, 2- and 3-cut sweeps of short streams, through the real Buffer and the real server/client/TTY read loops on a simulated network and thread pool; delivered messages compared structurally with what was sent, promptness checked after every piece, step watchdog for termination. Sampling, not proof.",
             "Trusts the harness message grammar/spelling writer and the structural comparison; kernel TCP segmentation is modelled as arbitrary cuts (a superset).",
             "deterministic simulation (seeded stream-partition schedules on a virtual-time loop, fault-free) with structural reference comparison"),
